@@ -1,6 +1,7 @@
 /-
 Line-protocol driver for the Kalman model (properties C03 and C08).
 
+  kfv <rescale 0|1> <nv> { T P K Z H D a Q <nper> {period}* }*   (variant loop, see runKfv)
   kf|kfr <rescale 0|1> <hasXi 0|1> T P K Z H D a Q [Xi] <nper> { <mask> y stdU stdW u0 w0 }*
       matrices as `r c x11 … xrc` (entries `num/den`), mask as a 0/1 word of length ny
   -> ok <mid> <tid> <sim> <csum> N vs sq lsc nper [delta] { numObs detFi peFiPe a0 Q0 F y0 pe Q1 a1 u1 w1 a2 Q2 u2 w2 }*
@@ -119,6 +120,23 @@ def runKf (rounded : Bool) (q : Req) : R String := do
       sm u.a, sm u.u, sm u.w, sm b.a, sm b.Q, sm b.u, sm b.w])
   pure (" ".intercalate (head ++ dl ++ per))
 
+/-- one variant of a `kfv` request: `T P K Z H D a Q nper {period}*` -/
+def variantReq : P VariantIn := do
+  let T ← mat; let Pm ← mat; let K ← mat; let Z ← mat; let H ← mat; let D ← mat
+  let a ← mat; let Q ← mat
+  let n ← nat
+  let ps ← rep (period Z.rows) n
+  pure { sys := { T, P := Pm, K, Z, H, D }, a, Q, periods := ps }
+
+/-- `kfv <rescale> <nv> {variant}*`: the model's variant loop (`filterVariants`, hand-over rounding as in `kfr`);
+reply `ok nv { varScale nper {predictVar updateVar smoothVar}* }*` -/
+def runKfv (rescale : Bool) (vs : List VariantIn) : R String := do
+  let outs ← filterVariants rndMat rescale vs
+  let per := outs.map (fun o =>
+    " ".intercalate ([sr o.lik.varScale, toString o.caches.length] ++
+      ((o.predictVar.zip (o.updateVar.zip o.smoothVar)).map (fun x => " ".intercalate [sm x.1, sm x.2.1, sm x.2.2]))))
+  pure (" ".intercalate (["ok", toString outs.length] ++ per))
+
 def step (line : String) : String :=
   match words line with
   | "kf" :: rest =>
@@ -128,6 +146,10 @@ def step (line : String) : String :=
   | "kfr" :: rest =>
     match req rest with
     | some (q, []) => (match runKf true q with | .ok s => s | .error e => showErr e)
+    | _ => "bad-op"
+  | "kfv" :: rest =>
+    match (do let r ← nat; let nv ← nat; let vs ← rep variantReq nv; pure (r, vs) : P _) rest with
+    | some ((r, vs), []) => (match runKfv (r = 1) vs with | .ok s => s | .error e => showErr e)
     | _ => "bad-op"
   | "initmed" :: rest =>
     match (do let T ← mat; let K ← mat; pure (T, K) : P _) rest with
